@@ -167,7 +167,6 @@ fn inv(p: &ContainerParser) -> bool {
 // ------------------------------------------------------------------------------------------------
 #[derive(Clone, Copy)]
 struct Parts {
-    tag: u8,
     ty: [u8; 4],
     size: Option<u64>,
     inner: Option<[u8; 4]>,
@@ -179,11 +178,13 @@ struct Parts {
     pcb: usize,
 }
 
-fn any_parts() -> Parts {
+/// `sized` is a literal in every harness: DetectState keeps its discriminant in the niche of
+/// `InAuxBox.header.box_size`'s Option tag, so a symbolic tag there would make CBMC explore every arm
+/// of emit_single's match. Sized boxes and boxes running to end of file are therefore separate harnesses.
+fn any_parts(sized: bool) -> Parts {
     let p = Parts {
-        tag: kani::any(),
         ty: kani::any(),
-        size: kani::any(),
+        size: if sized { Some(kani::any()) } else { None },
         inner: kani::any(),
         left: kani::any(),
         kind: kani::any(),
@@ -192,7 +193,7 @@ fn any_parts() -> Parts {
         jidx: kani::any(),
         pcb: kani::any(),
     };
-    kani::assume(p.tag <= 4 && p.kind <= 3 && p.jtag <= 3);
+    kani::assume(p.kind <= 3 && p.jtag <= 3);
     // every ContainerBoxHeader is a result of ContainerBoxHeader::parse (ct.box_header: payload <= 2^64-17)
     kani::assume(match p.size { Some(n) => n <= u64::MAX - 16, None => true });
     // ParseEvents: previous_consumed_bytes + remaining_input.len() == length of the slice given to
@@ -211,11 +212,14 @@ fn mk_header(ty: [u8; 4], size: Option<u64>) -> ContainerBoxHeader {
     if let Some(n) = size {
         b[3] = 1;
         let be = (n + 16).to_be_bytes();
-        let mut i = 0;
-        while i < 8 {
-            b[8 + i] = be[i];
-            i += 1;
-        }
+        b[8] = be[0];
+        b[9] = be[1];
+        b[10] = be[2];
+        b[11] = be[3];
+        b[12] = be[4];
+        b[13] = be[5];
+        b[14] = be[6];
+        b[15] = be[7];
     }
     match ContainerBoxHeader::parse(&b) {
         Ok(HeaderParseResult::Done { header, .. }) => header,
@@ -223,8 +227,10 @@ fn mk_header(ty: [u8; 4], size: Option<u64>) -> ContainerBoxHeader {
     }
 }
 
-fn build(p: &Parts) -> ContainerParser {
-    let state = match p.tag {
+/// `phase` is passed as a literal by every harness so that the initial discriminant is a constant and
+/// CBMC does not explore the other arms of the first iteration.
+fn build(phase: u8, p: &Parts) -> ContainerParser {
+    let state = match phase {
         0 => DetectState::WaitingSignature,
         1 => DetectState::WaitingBoxHeader,
         2 => DetectState::WaitingJxlpIndex(mk_header(p.ty, p.size)),
@@ -253,12 +259,12 @@ fn build(p: &Parts) -> ContainerParser {
     ContainerParser { state, jxlp_index_state, previous_consumed_bytes: p.pcb }
 }
 
-/// Any parser state satisfying Inv.
-fn any_inv_parts() -> Parts {
-    let p = any_parts();
-    let parser = build(&p);
+/// Any parser state in phase `phase` satisfying Inv.
+fn any_inv_state(phase: u8, sized: bool) -> (Parts, ContainerParser) {
+    let p = any_parts(sized);
+    let parser = build(phase, &p);
     kani::assume(inv(&parser));
-    p
+    (p, parser)
 }
 
 // ------------------------------------------------------------------------------------------------
@@ -506,28 +512,16 @@ fn largesize_cut(b: &[u8]) -> bool {
     b.len() >= 8 && b.len() < 16 && b[0] == 0 && b[1] == 0 && b[2] == 0 && b[3] == 1
 }
 
-fn phase_no(p: &Ph) -> u8 {
-    match p {
-        Ph::Sig => 0,
-        Ph::Hdr => 1,
-        Ph::Idx { .. } => 2,
-        Ph::Aux { .. } => 3,
-        Ph::Code { .. } => 4,
-    }
-}
-
 /// One `next()` from any Inv state in phase `phase`, on any buffer of <= MAXB bytes.
-fn step_contract(phase: u8) {
+fn step_contract(phase: u8, sized: bool) {
     let data: [u8; MAXB] = kani::any();
     let len: usize = kani::any();
     kani::assume(len <= MAXB);
     let buf = &data[..len];
     let base = data.as_ptr();
 
-    let parts = any_inv_parts();
-    let mut parser = build(&parts);
+    let (_parts, mut parser) = any_inv_state(phase, sized);
     let before = abs(&parser);
-    kani::assume(phase_no(&before.ph) == phase);
     let pcb0 = parser.previous_consumed_bytes;
     let finished0: bool = kani::any();
 
@@ -605,6 +599,7 @@ fn step_contract(phase: u8) {
                 _ => assert!(false, "[C10] container errors are InvalidBox / ValidationFailed"),
             }
             assert!(finished1, "[C10,C01] no events after an error");
+            std::mem::forget(r);
             return;
         }
         (Some(Err(_)), _) => assert!(false, "[C10] well-formed input rejected"),
@@ -613,36 +608,50 @@ fn step_contract(phase: u8) {
         (Some(Ok(_)), Out::Quiet) => assert!(false, "[C10,C09] the parser emits an event from an incomplete syntax element"),
     }
     assert!(inv_abs(&after), "[C01,C10] Inv is re-established");
+    // the result may hold an Error whose drop glue (io::Error) is irrelevant here and slow in CBMC
+    std::mem::forget(r);
 }
 
 #[kani::proof]
 #[kani::unwind(14)]
 fn step_signature() {
-    step_contract(0);
+    step_contract(0, false);
 }
 
 #[kani::proof]
-#[kani::unwind(14)]
+#[kani::unwind(6)]
 fn step_box_header() {
-    step_contract(1);
+    step_contract(1, false);
 }
 
 #[kani::proof]
-#[kani::unwind(14)]
-fn step_jxlp_index() {
-    step_contract(2);
+#[kani::unwind(6)]
+fn step_jxlp_index_sized() {
+    step_contract(2, true);
 }
 
 #[kani::proof]
-#[kani::unwind(14)]
-fn step_aux_box() {
-    step_contract(3);
+#[kani::unwind(6)]
+fn step_jxlp_index_eof() {
+    step_contract(2, false);
 }
 
 #[kani::proof]
-#[kani::unwind(14)]
+#[kani::unwind(6)]
+fn step_aux_box_sized() {
+    step_contract(3, true);
+}
+
+#[kani::proof]
+#[kani::unwind(6)]
+fn step_aux_box_eof() {
+    step_contract(3, false);
+}
+
+#[kani::proof]
+#[kani::unwind(6)]
 fn step_codestream() {
-    step_contract(4);
+    step_contract(4, false);
 }
 
 // base case of the induction + feed_bytes resets the consumption counter + kind()
@@ -652,8 +661,10 @@ fn init_establishes_inv() {
     assert!(abs(&p) == AState { ph: Ph::Sig, seq: Seq::Initial } && inv(&p), "[C10,C01] a new parser satisfies Inv");
     assert!(p.previous_consumed_bytes() == 0 && p.kind() == BitstreamKind::Unknown, "[C10]");
 
-    let parts = any_inv_parts();
-    let mut q = build(&parts);
+    let phase: u8 = kani::any();
+    kani::assume(phase <= 4);
+    let sized: bool = kani::any();
+    let (_parts, mut q) = any_inv_state(phase, sized);
     let before = abs(&q);
     let k = q.kind();
     let expect = match before.ph { Ph::Sig => 0, Ph::Code { kind, .. } => kind, _ => 2 };
